@@ -30,13 +30,22 @@ def goodbye(ctx: Any) -> List[Ob]:
     f = zc.methods['_add_broadcast_answer']
     me, p_out, p_info, p_ttl, p_addr = f.params[:5]
     aliases = {p_ttl}
+
+    def is_ttl(v: ast.AST) -> bool:
+        """the override TTL itself, a local that holds it, or an identity spelled as a conditional
+        (`None if ttl is None else ttl`)"""
+        if isinstance(v, ast.Name):
+            return v.id in aliases
+        if isinstance(v, ast.IfExp) and isinstance(v.test, ast.Compare) and len(v.test.ops) == 1 and is_ttl(v.test.left) and norm(v.test.comparators[0]) == 'None':
+            if isinstance(v.test.ops[0], ast.Is):
+                return norm(v.body) == 'None' and is_ttl(v.orelse)
+            if isinstance(v.test.ops[0], ast.IsNot):
+                return norm(v.orelse) == 'None' and is_ttl(v.body)
+        return False
+
     for st in walk_local_ordered(f.node):
-        if isinstance(st, ast.Assign) and isinstance(st.targets[0], ast.Name):
-            v = st.value
-            if isinstance(v, ast.IfExp) and norm(v.orelse) == p_ttl and norm(v.body) == 'None' and isinstance(v.test, ast.Compare) and norm(v.test.left) == p_ttl and isinstance(v.test.ops[0], ast.Is):
-                aliases.add(st.targets[0].id)
-            elif norm(v) in aliases:
-                aliases.add(st.targets[0].id)
+        if isinstance(st, ast.Assign) and isinstance(st.targets[0], ast.Name) and is_ttl(st.value):
+            aliases.add(st.targets[0].id)
     seen: Dict[str, ast.Call] = {}
     for c in walk_local_ordered(f.node):
         if isinstance(c, ast.Call) and call_name(c) in BUILDERS and isinstance(c.func, ast.Attribute) and norm(c.func.value) == p_info:
@@ -46,7 +55,7 @@ def goodbye(ctx: Any) -> List[Ob]:
         threaded = False
         if c is not None:
             arg = (c.args[0] if c.args else next((k.value for k in c.keywords if k.arg == 'override_ttl'), None))
-            threaded = arg is not None and norm(arg) in aliases
+            threaded = arg is not None and is_ttl(arg)
         obs.append(ob(R, f, c if c is not None else f'{p_info}.{b}(...)', f'the {lab} record is added with the override TTL (0 for a goodbye)', c is not None and threaded, '' if c is not None else 'builder not called'))
 
     def eff(node: Any, evl: Any) -> List[Any]:
@@ -82,16 +91,17 @@ def goodbye(ctx: Any) -> List[Ob]:
     ok_bc = False
     if len(bc) == 1 and len(bc[0].args) == 4:
         ttl_ok = prog.try_fold(u.module, bc[0].args[2]) == (True, 0)
-        addr_var = norm(bc[0].args[3])
-        d = [st.value for st in walk_local_ordered(u.node) if isinstance(st, ast.Assign) and norm(st.targets[0]) == addr_var]
-        neg = len(d) == 1 and isinstance(d[0], ast.UnaryOp) and isinstance(d[0].op, ast.Not)
-        ent = None
+        from .common import expand as _xp
+
+        # the flag, read through the locals that name it: `not <entries>` / `not bool(<entries>)` where <entries> is the
+        # registry's look-up by the service's server key
+        d0 = _xp(u, bc[0].args[3])
+        neg = isinstance(d0, ast.UnaryOp) and isinstance(d0.op, ast.Not)
+        src0 = None
         if neg:
-            inner = d[0].operand
-            inner = inner.args[0] if isinstance(inner, ast.Call) and norm(inner.func) == 'bool' else inner
-            ent = norm(inner)
-        src = [st.value for st in walk_local_ordered(u.node) if isinstance(st, ast.Assign) and norm(st.targets[0]) == ent]
-        ok_bc = ttl_ok and neg and len(src) == 1 and isinstance(src[0], ast.Call) and call_name(src[0]) == 'async_get_infos_server' and norm(src[0].args[0]).endswith('server_key')
+            inner = d0.operand
+            src0 = inner.args[0] if isinstance(inner, ast.Call) and norm(inner.func) == 'bool' and len(inner.args) == 1 else inner
+        ok_bc = bool(ttl_ok and neg and isinstance(src0, ast.Call) and call_name(src0) == 'async_get_infos_server' and src0.args and norm(src0.args[0]).endswith('server_key'))
     obs.append(ob(R, u, bc[0] if bc else '_async_broadcast_service', 'the goodbye is broadcast with TTL 0, with addresses exactly when no other registered service uses the host', ok_bc))
     # broadcast loop count and argument threading
     b = zc.methods['_async_broadcast_service']
